@@ -209,7 +209,25 @@ def gen_output_card(rng):
         obs = [[hname, cards.huge_points(rng, rng.randint(257, 300), cards.is_xs(hname))]]
         if rng.random() < 0.5:
             obs.append(["F3_light", cards.huge_points(rng, 2)])
+    giant = (not nnlo) and (not big) and rng.random() < 0.002
+    if giant:
+        # giant: a production-sized grid (50 nodes) and about two thousand points in one observable - the operator
+        # of one observable is then > 10 MB, the size at which writers start to chunk / split / stream
+        # (adversarial seeded change c15-adversarial-npz-parts-sorted-as-text: more than ten 1 MiB parts).
+        # Runs holding such an output use the tar format only (PyYAML needs minutes for 1.5 million floats).
+        th["PTO"] = 0
+        th.pop("PTODIS", None)
+        th["TMC"] = 0
+        if th["FNS"] != "ZM-VFNS":
+            th["FNS"] = "ZM-VFNS"
+        ob["interpolation_xgrid"] = cards.wide_grid(30, 20)
+        ob["interpolation_is_log"] = True
+        ob["interpolation_polynomial_degree"] = rng.choice([1, 4])
+        gname = rng.choice(["F2_light", "F2_total", "FL_light", "F3_total"])
+        obs = [[gname, cards.huge_points(rng, rng.randint(1900, 2300))]]
     card = {"theory": th, "obs": ob, "observables": obs}
+    if giant:
+        card["giant"] = True
     sfs = [o for o in obs if not cards.is_xs(o[0])]
     if len(sfs) >= 2 and rng.random() < 0.35:
         # the way yadmark builds cards: the *same* kinematics list object under every structure function
@@ -290,6 +308,7 @@ def generate(run_seed, fault_config="all", jit=False, max_ops=12, max_faults=1, 
         yaml_paths = cfg.sample(["a.yaml", "out.tar.yaml", "run 1/caf\u00e9 *.yml", "noext", "b.yaml"], 3)
     pstyles = cfg.choice([["str"], ["str"], ["str", "pathlib"], ["pathlib"], ["str", "pathlib", "relative"]])
     nclients = cfg.randint(1, 3)
+    tar_only = any(c.get("giant") for c in outputs.values())
     ops = []
     live = {}  # handle -> True ; abstract
     files = {}  # path -> fmt (assumed acked)
@@ -310,6 +329,8 @@ def generate(run_seed, fault_config="all", jit=False, max_ops=12, max_faults=1, 
             choices.append(("load_yaml_stream", 1.5))
         if ops:
             choices.append(("crash_restart", 0.25))
+        if tar_only:
+            choices = [c for c in choices if "yaml" not in c[0]]
         kind = cards.wchoice(ops_rng, choices)
         op = {"id": len(ops), "client": ops_rng.randrange(nclients), "op": kind}
         if kind == "make_output":
